@@ -59,6 +59,9 @@ type Notes struct {
 	// SlideNum, when non-empty, adds the slide-number placeholder PowerPoint
 	// puts on notes pages: an <a:fld type="slidenum"> whose cached text is SlideNum.
 	SlideNum string `json:"slide_num,omitempty"`
+	// AbsTarget spells the notesSlide relationship target of the slide as an
+	// absolute part name ("/ppt/notesSlides/…") instead of a relative reference.
+	AbsTarget bool `json:"abs_target,omitempty"`
 }
 
 // Slide is one slide part.
@@ -562,7 +565,7 @@ func (d Deck) Members() ([]zipw.Member, error) {
 			rs = append(rs, rel{"rId1", relBase + "slideLayout", relTarget(path.Dir(part), "ppt/slideLayouts/slideLayout1.xml", false)})
 		}
 		if notesPart != "" {
-			nr := rel{"rId2", relBase + "notesSlide", relTarget(path.Dir(part), notesPart, false)}
+			nr := rel{"rId2", relBase + "notesSlide", relTarget(path.Dir(part), notesPart, s.Notes.AbsTarget)}
 			if s.NotesRelFirst {
 				rs = append([]rel{nr}, rs...)
 			} else {
